@@ -1,5 +1,6 @@
 import Driver.Common
 import FranzVerif.Model.Commit
+import FranzVerif.Model.CommitReport
 /-! Sub-driver C09 (`cmt` scenarios). -/
 open Driver Model.Commit
 
@@ -26,6 +27,22 @@ def parseEv (t : String) : Option (Option Ev) :=
   | ["Cunknown"] => some (some .incomplete)   -- a commit whose own context ended early finished with an error: the client cannot know whether it took effect, so "the last successful commit" is not defined and the final-value clauses are not judged (the ordering clauses are)
   | _ => none
 
+/-- the success-report monitor's view of the history: Cs, Wc, Wr, Ce -/
+def parseReportEv (t : String) : Option Model.CommitReport.Ev :=
+  match t.splitOn ":" with
+  | ["Cs", k, _api, offs] => do some (.issue (← k.toNat?) (← parseOffs offs))
+  | ["Ce", k, r] => do some (.finish (← k.toNat?) (r == "ok"))
+  | ["Wc", n, p, o] => do some (.wireReq (← n.toNat?) (← p.toNat?) (← o.toNat?))
+  | ["Wr", n, p, e] => do some (.wireResp (← n.toNat?) (← p.toNat?) (← e.toInt?))
+  | _ => none
+
+def reportRefusals : Model.CommitReport.St → List Model.CommitReport.Ev → List String → List String
+  | _, [], acc => acc.reverse
+  | s, e :: es, acc =>
+    match Model.CommitReport.check s e with
+    | none => reportRefusals (Model.CommitReport.apply s e) es acc
+    | some r => reportRefusals (Model.CommitReport.apply s e) es (r :: acc)
+
 def refusals : St → List Ev → List String → List String
   | _, [], acc => acc.reverse
   | s, e :: es, acc =>
@@ -44,7 +61,7 @@ def handle (line : String) : String :=
     let evs := ets.map parseEv
     if evs.any (·.isNone) then "!bad-event | - | 0" else
     let es := (evs.filterMap id).filterMap id
-    let rs := refusals {} es []
+    let rs := refusals {} es [] ++ reportRefusals {} (ets.filterMap parseReportEv) []
     let nErr := (es.filter (fun e => match e with | .wireResp _ _ e => e != 0 | _ => false)).length
     let nIssue := (es.filter (fun e => match e with | .issue _ _ => true | _ => false)).length
     let nt := boolStr (decide (nIssue ≥ 4) && decide (nErr > 0 || nIssue ≥ 8))
